@@ -238,15 +238,17 @@ class Gen:
     ]
 
     def mod_entry(self, deps_kinds):
+        """(text, name of the function if the entry is a non-private function with a body)"""
         r = self.r.random()
         if r < 0.5:
             vis = self.pick(["pub ", "pub ", "pub(crate) ", "pub(super) ", "pub(in crate::a) ", "pub(self) "])
-            sig, _ = self.fn_sig(deps_kinds=deps_kinds)
-            return f"{self.attrs(0.15)}{vis}{sig} {self.pick(BODIES)}"
+            name = self.pick(FN_NAMES)
+            sig, _ = self.fn_sig(name=name, deps_kinds=deps_kinds)
+            return f"{self.attrs(0.15)}{vis}{sig} {self.pick(BODIES)}", name
         if r < 0.62:
             sig, _ = self.fn_sig(deps_kinds=deps_kinds)
-            return f"{self.attrs(0.1)}{sig} {self.pick(BODIES)}"
-        return self.pick(self.OTHER_ITEMS)
+            return f"{self.attrs(0.1)}{sig} {self.pick(BODIES)}", None
+        return self.pick(self.OTHER_ITEMS), None
 
     def case_mod(self, allow_invalid=False):
         no_deps = self.maybe(0.15)
@@ -254,7 +256,9 @@ class Gen:
         if allow_invalid and self.maybe(0.2):
             kinds = kinds + ["concrete"]
         n = self.r.choice([0, 1, 2, 2, 3, 4, 5])
-        body = " ".join(self.mod_entry(kinds) for _ in range(n))
+        entries = [self.mod_entry(kinds) for _ in range(n)]
+        body = " ".join(e[0] for e in entries)
+        self.last_meta = "fns=" + ",".join(e[1] for e in entries if e[1])
         attrs = self.attrs(0.1)
         vis = self.pick(FN_VIS)
         pre = "unsafe " if allow_invalid and self.maybe(0.05) else ""
@@ -410,14 +414,16 @@ class Gen:
         out = []
         for k in range(n):
             kind = self.r.choices(kinds, ws)[0]
+            self.last_meta = ""
             v, attr, item = getattr(self, "case_" + kind)()
-            out.append((f"{prefix}{k}_{kind}", v, attr, item))
+            meta = self.last_meta if kind == "mod" else ""
+            out.append((f"{prefix}{k}_{kind}", v, attr, item, meta))
         return out
 
 
 def write_cases(path, cases):
     with open(path, "w") as f:
-        for (cid, v, attr, item) in cases:
+        for (cid, v, attr, item, *_rest) in cases:
             assert "\t" not in attr and "\t" not in item and "\n" not in attr and "\n" not in item
             f.write(f"{cid}\t{v}\t{attr}\t{item}\n")
 
